@@ -1,7 +1,11 @@
 package props
 
 import (
+	"bytes"
 	"fmt"
+	"os"
+	"os/exec"
+	"path/filepath"
 	"reflect"
 	"sort"
 	"strings"
@@ -29,6 +33,8 @@ type C13Case struct {
 	All    bool       `json:"all_blocks,omitempty"`     // every other format has an override block with other values
 	// BaseUnset: the base settings leave the leaves unset, only the override block sets them
 	BaseUnset bool `json:"base_unset,omitempty"`
+	// Bystanders: the base settings set EVERY overridable leaf; the override block sets only the leaves of the case
+	Bystanders bool `json:"bystanders,omitempty"`
 	// Null: the override block of Key is written without any setting ("deb:" followed by nothing - YAML null)
 	Null bool `json:"null_block,omitempty"`
 }
@@ -188,6 +194,15 @@ func init() {
 					return
 				}
 			}
+			// through the command line: the override block of the format that is packaged is applied however the packager
+			// was chosen (-p, or inferred from the target's extension)
+			for _, k := range Formats {
+				for _, how := range []string{"-p", "extension", "conventional-extension", "-p-uppercase", "extension-uppercase"} {
+					if !yield(C13Case{Part: "cli", Key: k, First: how}) {
+						return
+					}
+				}
+			}
 			for _, k := range Formats {
 				if !yield(C13Case{Part: "umask", Key: k}) {
 					return
@@ -212,6 +227,10 @@ func init() {
 			// the base settings leave the leaf unset; two override blocks for the same leaf; a block for every format
 			for _, l := range leaves {
 				for _, k := range Formats {
+					// every other overridable setting is set in the base settings and must come through untouched
+					if !yield(C13Case{Part: "leaf", Key: k, Leaves: [][]string{l.Path}, Kinds: []string{l.Kind}, First: k, Bystanders: true}) {
+						return
+					}
 					if !yield(C13Case{Part: "leaf", Key: k, Leaves: [][]string{l.Path}, Kinds: []string{l.Kind}, First: k, Null: true}) {
 						return
 					}
@@ -413,6 +432,14 @@ func checkC13(env *engine.Env, ci any) engine.Outcome {
 				}
 			}
 		}
+		if c.Bystanders {
+			for _, l := range overridableShape() {
+				if l.Kind == "contents" {
+					continue // the content list needs sources that exist; it has its own part
+				}
+				setDeep(doc, l.Path, c13Value(l, "base"))
+			}
+		}
 		if !c.BaseUnset {
 			for _, l := range leaves {
 				setDeep(doc, l.Path, c13Value(l, "base"))
@@ -502,7 +529,7 @@ func checkC13(env *engine.Env, ci any) engine.Outcome {
 			}
 			keyParts = append(keyParts, f+"="+fmt.Sprint(hashString(got)))
 		}
-		out.Key = fmt.Sprintf("%s:%s:%v:%v:%v:%v:%v:%s:%s:%s", c.Key, c.Key2, c.All, c.BaseUnset, c.Null, c.Leaves, c.Empty, c.First, c.Second, strings.Join(keyParts, ","))
+		out.Key = fmt.Sprintf("%s:%s:%v:%v:%v:%v:%v:%v:%s:%s:%s", c.Key, c.Key2, c.All, c.BaseUnset, c.Null, c.Bystanders, c.Leaves, c.Empty, c.First, c.Second, strings.Join(keyParts, ","))
 	case "validate":
 		doc := deepCopyMap(base)
 		doc["overrides"] = map[string]any{c.Key: map[string]any{"depends": []any{"x"}}}
@@ -547,6 +574,68 @@ func checkC13(env *engine.Env, ci any) engine.Outcome {
 		}
 		if !registered && verr == nil {
 			viol("merge:validate-accepts-unregistered", "Validate accepts an override block for %q, which has no registered packager", c.Key)
+		}
+	case "cli":
+		bin, err := nfpmBinary(env)
+		if err != nil {
+			out.HarnessError = err.Error()
+			return out
+		}
+		work, err := os.MkdirTemp(env.Scratch, "c13cli-")
+		if err != nil {
+			out.HarnessError = err.Error()
+			return out
+		}
+		defer os.RemoveAll(work)
+		doc := deepCopyMap(base)
+		doc["depends"] = []any{"base-dep"}
+		ov := map[string]any{}
+		for _, f := range Formats {
+			ov[f] = map[string]any{"depends": []any{"only-" + f}}
+		}
+		doc["overrides"] = ov
+		text := fixture.Doc(doc).YAML()
+		os.WriteFile(filepath.Join(work, "nfpm.yaml"), []byte(text), 0o644)
+		f := c.Key
+		ext := extOf[f]
+		args := []string{"package", "-f", "nfpm.yaml"}
+		switch c.First {
+		case "-p":
+			args = append(args, "-p", f, "-t", "out"+ext)
+		case "extension": // the spelling the packager name is inferred from
+			args = append(args, "-t", "out."+f)
+		case "conventional-extension":
+			args = append(args, "-t", "out"+ext)
+		case "-p-uppercase":
+			args = append(args, "-p", strings.ToUpper(f), "-t", "out"+ext)
+		case "extension-uppercase":
+			args = append(args, "-t", "out."+strings.ToUpper(f))
+		}
+		target := args[len(args)-1]
+		cmd := exec.Command(bin, args...)
+		cmd.Dir = work
+		o, rerr := cmd.CombinedOutput()
+		out.Transitions++
+		out.Key = fmt.Sprintf("cli:%s:%s:exit=%v", f, c.First, rerr != nil)
+		if rerr != nil {
+			// refusing (no packager can be inferred, unknown packager name) is fine
+			_ = o
+			return out
+		}
+		b, err := os.ReadFile(filepath.Join(work, target))
+		if err != nil {
+			viol("merge:cli-no-output:"+c.First, "nfpm %v exited 0 but %s does not exist", args, target)
+			return out
+		}
+		got := sniffFormat(b)
+		pkg, derr := pkgread.Decode(got, b, env.Tools)
+		if derr != nil {
+			viol("merge:cli-undecodable:"+c.First, "nfpm %v wrote something that is not a %s package: %v", args, got, derr)
+			return out
+		}
+		deps := strings.Join(pkgDepends(got, pkg), ",")
+		if !strings.Contains(deps, "only-"+got) || strings.Contains(deps, "base-dep") {
+			viol("merge:cli-override-not-applied:"+c.First, "nfpm %v wrote a %s package whose dependencies are %q; the override block for %s sets [only-%s]", args, got, deps, got, got)
 		}
 	case "umask":
 		// an umask override applies to its own format only; all five packages are built in ONE process
@@ -679,7 +768,69 @@ func checkC13(env *engine.Env, ci any) engine.Outcome {
 				judge(f, data, err, st)
 			}
 		}
+		// ONE effective-settings object handed to two packagers in turn (and prepared for "all" first): the second
+		// package still holds only what is addressed to its own format
+		if cfg, err := parseYAML(text, nil); err == nil {
+			for _, pair := range [][2]string{{"deb", "rpm"}, {"rpm", "deb"}, {"apk", "ipk"}, {"archlinux", "apk"}, {"ipk", "archlinux"}} {
+				if pair[0] == c.Key || pair[1] == c.Key {
+					continue // keep the expectation simple: formats that get the base list
+				}
+				info, gerr := safeGet(&cfg, pair[0])
+				if gerr != nil {
+					continue
+				}
+				info = nfpm.WithDefaults(info)
+				for i, f := range []string{pair[0], pair[1]} {
+					p, _ := nfpm.Get(f)
+					var buf bytes.Buffer
+					func() {
+						defer func() {
+							if r := recover(); r != nil {
+								err = fmt.Errorf("PANIC: %v", r)
+							}
+						}()
+						err = p.Package(info, &buf)
+					}()
+					if i == 1 {
+						if err != nil {
+							// a second packager may refuse settings another one has prepared; it must not ship foreign entries
+							continue
+						}
+						// (its own packager-specific entries are gone by then - the first packager narrowed the list -
+						// which is the price of handing one object round; what must not happen is a foreign entry)
+						if pkg, derr := pkgread.Decode(f, buf.Bytes(), env.Tools); derr == nil {
+							out.Transitions++
+							for _, e := range pkg.Entries {
+								for _, g := range Formats {
+									if g != f && strings.HasSuffix(e.Path, "-"+g) && strings.HasPrefix(e.Path, "/opt/") {
+										viol("merge:contents-foreign-entry:"+f+":same-settings-after-"+pair[0], "one effective-settings object packaged as %s and then as %s: the %s package ships %q, which is addressed to %s", pair[0], f, f, e.Path, g)
+									}
+								}
+							}
+						}
+					}
+				}
+			}
+		}
 		out.Key = fmt.Sprintf("contents:%s:%v:%s:%s", c.Key, c.Empty, c.Key2, strings.Join(ks, ","))
+	}
+	return out
+}
+
+// pkgDepends reads the dependency list of a decoded package.
+func pkgDepends(f string, pkg *pkgread.Pkg) []string {
+	var out []string
+	key := map[string]string{"deb": "Depends", "ipk": "Depends", "apk": "depend", "archlinux": "depend"}[f]
+	if f == "rpm" {
+		if pkg.RPM != nil && pkg.RPM.Hdr != nil {
+			return pkg.RPM.Hdr.Strs(1049)
+		}
+		return nil
+	}
+	for _, kv := range pkg.Fields {
+		if kv.K == key {
+			out = append(out, kv.V)
+		}
 	}
 	return out
 }
